@@ -1,8 +1,22 @@
 (* C17 — TLS streams: faithful transport over any fragmentation, truncation detected (proof, partial).
    Only statements closed by `exact`, each followed by Print Assumptions.
-   Theorems 1-6 hold for EVERY SSL-object oracle `ocall` (any stateful function, in particular any script),
-   every transport script (fragmentation, cut point, failures) and every operation sequence.
-   Theorems 7-12 are about the toy record layer `toy_call`, a concrete SSL object that satisfies the
+   Theorems 1-6, 12, 15 and 16 are about the pump loop for EVERY SSL-object oracle `ocall` (any stateful function, in
+   particular any script), every transport script (fragmentation, cut point, failures) and every operation sequence.
+   Exact hypotheses that are easy to overlook:
+     * 1 (conservation) has two guards, both sticky ghost flags of the model:
+         sendfail s = false  - no transport.send() has raised so far.  A raising send() was handed bytes that the
+                               pump had already taken out of the outgoing BIO; they are lost, so after such a failure
+                               only the frame conditions remain (the stream is broken anyway);
+         late s = false      - the transport has not delivered data AFTER reporting its own EndOfStream (then
+                               MemoryBIO.write() refuses the data; no transport obeying the ByteReceiveStream contract
+                               does this).
+       The third clause (fed = consumed ++ incoming BIO) is unconditional.  Both guards are false on ordinary runs
+       (Examples ex_conserved_and_flushed, ex_conservation_guards_false_duplex in TlsPumpProofs.v); what they exclude
+       is exhibited by ex_sendfail_excluded / ex_late_excluded.
+     * 6 (receive <= max_bytes) is NOT for every oracle: it has the premise that the oracle's read(n) returns at most
+       n bytes (a clause of the SSL contract H_ssl; the toy layer satisfies it, 7; the harness observes it on OpenSSL).
+       Without that premise only "receive returns exactly what read() returned, and never an empty result" holds (5).
+   Theorems 7-11 and 13-14 are about the toy record layer `toy_call`, a concrete SSL object that satisfies the
    record-layer contract H_ssl; OpenSSL itself is not modelled (the harness observes it). *)
 From AV Require Import Base TlsPump TlsPumpProofs.
 
@@ -64,7 +78,8 @@ Theorem C17_pump_eof_mapping :
 Proof. exact pump_eof_mapping. Qed.
 Print Assumptions C17_pump_eof_mapping.
 
-(* 6. receive never returns more than max_bytes (nor an empty result), under the contract read(n) <= n *)
+(* 6. receive never returns more than max_bytes (nor an empty result) - for every oracle THAT satisfies the contract
+      clause "read(n) returns at most n bytes" (first premise) *)
 Theorem C17_pump_receive_le_max_bytes :
   forall (O : Type) (ocall : O -> func -> list nat -> bool -> option (O * sslev)),
     (forall o n b be o1 e, ocall o (FRead n) b be = Some (o1, e) -> ek e = KOk -> length (eval e) <= n) ->
@@ -213,10 +228,50 @@ Theorem C17_tls_half_close_reply_delivered_refuted_pinned :
 Proof. exact tls_half_close_reply_delivered_refuted_pinned. Qed.
 Print Assumptions C17_tls_half_close_reply_delivered_refuted_pinned.
 
-(* ... and with a scripted SSL object that, like OpenSSL 3, keeps reporting the unexpected EOF once it has seen it:
-   the pinned pump makes send() raise EndOfStream and write nothing, both BIOs at EOF; the fixed pump never tells
-   the SSL object, which performs the write *)
-Theorem C17_pump_ragged_eof_keeps_send_alive_refuted_pinned :
+(* 15. the same statement for both pumps (step_v pinned = step_pinned / step).  ragged_eof_spec pinned says: not
+       standard_compatible, receive() ended with EndOfStream and the SSL object's last answer e was NOT its own
+       unexpected-EOF verdict (so e is "want read" - the end was the transport's - or an empty read): then both BIOs are
+       as before, nothing is pending, and a following send() is the SSL object's write on those BIOs, flushed.
+       It is unfolded here: proved for the fixed pump ... *)
+Theorem C17_pump_ragged_eof_spec_head :
+  forall (O : Type) (ocall : O -> func -> list nat -> bool -> option (O * sslev)) fuel o s n o1 s1 pre e,
+    std s = false ->
+    step_v false O ocall fuel (o, s) (OReceive n) = ((o1, s1), REndOfStream) ->
+    olog s1 = pre ++ [(FRead n, e)] -> ~ unexpected_eof e ->
+    bin_eof s1 = bin_eof s /\ bout_eof s1 = bout_eof s /\ bout s1 = [] /\
+    forall item o2 e2 fuel2,
+      ocall o1 (FWrite item) (bin s1) (bin_eof s) = Some (o2, e2) -> ek e2 = KOk ->
+      hd TxOk (txs s1) = TxOk ->
+      exists s2, step_v false O ocall (S fuel2) (o1, s1) (OSend item) = ((o2, s2), RVal []) /\
+        sent_of (trace s2) = sent_of (trace s1) ++ eemit e2 /\ bout s2 = [] /\
+        produced s2 = produced s1 ++ eemit e2 /\
+        bin s2 = skipn (econs e2) (bin s1) /\ bin_eof s2 = bin_eof s /\ bout_eof s2 = bout_eof s.
+Proof. exact pump_ragged_eof_spec_head. Qed.
+Print Assumptions C17_pump_ragged_eof_spec_head.
+
+(* ... and refuted, word for word, for the pinned pump (witness: the transport ends, the pinned pump tells the SSL
+   object, which answers with an empty read: EndOfStream is reported with the incoming BIO at EOF) *)
+Theorem C17_pump_ragged_eof_spec_refuted_pinned :
+  ~ (forall (O : Type) (ocall : O -> func -> list nat -> bool -> option (O * sslev)) fuel o s n o1 s1 pre e,
+      std s = false ->
+      step_v true O ocall fuel (o, s) (OReceive n) = ((o1, s1), REndOfStream) ->
+      olog s1 = pre ++ [(FRead n, e)] -> ~ unexpected_eof e ->
+      bin_eof s1 = bin_eof s /\ bout_eof s1 = bout_eof s /\ bout s1 = [] /\
+      forall item o2 e2 fuel2,
+        ocall o1 (FWrite item) (bin s1) (bin_eof s) = Some (o2, e2) -> ek e2 = KOk ->
+        hd TxOk (txs s1) = TxOk ->
+        exists s2, step_v true O ocall (S fuel2) (o1, s1) (OSend item) = ((o2, s2), RVal []) /\
+          sent_of (trace s2) = sent_of (trace s1) ++ eemit e2 /\ bout s2 = [] /\
+          produced s2 = produced s1 ++ eemit e2 /\
+          bin s2 = skipn (econs e2) (bin s1) /\ bin_eof s2 = bin_eof s /\ bout_eof s2 = bout_eof s).
+Proof. exact pump_ragged_eof_spec_refuted_pinned. Qed.
+Print Assumptions C17_pump_ragged_eof_spec_refuted_pinned.
+
+(* 16. behavioural contrast (NOT a refutation of a statement; two scripts chosen to mimic the poisoned and the healthy
+       SSL object): with an object that, like OpenSSL 3, keeps reporting the unexpected EOF once it has seen it, the
+       pinned pump makes send() raise EndOfStream and write nothing, both BIOs at EOF; the fixed pump never tells the
+       object, which performs the write *)
+Theorem C17_pump_ragged_eof_pinned_contrast :
   exists (poisoned healthy : list sslev),
     let out := srun_pinned 5 (poisoned, init_pst false [] (Some RxEof) []) [OReceive 10; OSend [1; 2]] in
     snd out = [REndOfStream; REndOfStream] /\ sent_of (trace (snd (fst out))) = [] /\
@@ -224,5 +279,5 @@ Theorem C17_pump_ragged_eof_keeps_send_alive_refuted_pinned :
     let out' := srun 5 (healthy, init_pst false [] (Some RxEof) []) [OReceive 10; OSend [1; 2]] in
     snd out' = [REndOfStream; RVal []] /\ sent_of (trace (snd (fst out'))) = [23; 3; 3; 0; 2; 2; 3] /\
     bin_eof (snd (fst out')) = false /\ bout_eof (snd (fst out')) = false.
-Proof. exact pump_ragged_eof_keeps_send_alive_refuted_pinned. Qed.
-Print Assumptions C17_pump_ragged_eof_keeps_send_alive_refuted_pinned.
+Proof. exact pump_ragged_eof_pinned_contrast. Qed.
+Print Assumptions C17_pump_ragged_eof_pinned_contrast.
